@@ -240,10 +240,20 @@ static int visited_add(uint64_t a, uint64_t b) {
   return 1;
 }
 
+static int multi_segment = 0;   /* 1: the heap has a second (last) segment and the objects of the history live in the first one */
+
 static sexp fresh(void) {
   sexp ctx = sexp_make_eval_context(NULL, NULL, NULL, 256 * 1024, 0);
   roots = sexp_make_vector(ctx, sexp_make_fixnum(5), SEXP_FALSE);
   sexp_preserve_object(ctx, roots);
+  if (multi_segment) {
+    /* an object larger than the heap forces a new segment; once it is dropped, first-fit allocation returns to segment one,
+       so every collection of the history has to reach its fix-point across segments */
+    sexp big = sexp_make_bytes(ctx, sexp_make_fixnum(512 * 1024), SEXP_VOID);
+    (void)big;
+    sexp_gc(ctx, NULL);
+    if (!sexp_context_heap(ctx)->next) { fprintf(stderr, "ephmc: no second heap segment\n"); exit(3); }
+  }
   nobjs = 0; rootK[0] = rootK[1] = rootE[0] = rootE[1] = -1;
   return ctx;
 }
@@ -266,6 +276,7 @@ int main(int argc, char **argv) {
   long transitions = 0, gcs = 0;
   sexp ctx;
   if (depth > MAXD) depth = MAXD;
+  if (argc > 2) multi_segment = atoi(argv[2]);
   vh_poison = VH_ASAN; vh_heapcheck = 1;
   vh_install_gc_hooks();
   build_alphabet();
